@@ -384,7 +384,7 @@ func c10Run(c *Ctx) {
 	// text literals spelling the same number (in either order, either script)
 	for _, lit := range []string{"0", "1", "2", "1.5", "0.5", "2.0", "1.0000000000000002", "0.9999999999999999", "2.5", "\u09e7.\u09eb", "\u09e8", "1.00", "0.0001", "2.9999"} {
 		for _, form := range []string{Print("[10, 20, 30][%s]"), Var("a", "[10, 20, 30]") + " a[%s] = 99; " + Print("a"), Print(BI("remove", "[10, 20, 30]", "%s")), Print("1 << %s"), Print("[%s, %s + 1]"), Print(BI("abs", "%s") + " == %s"),
-			Print("{k: %s}.k"), If("%s", Print(`"truthy"`)), Print(`"" + %s`), Var("i", "%s") + " " + Print("[10, 20, 30][i]")} {
+			Print("{k: %s}.k"), If("%s", Print(`"truthy"`)), Print(BI("max", "%s", "0.7", "0.6")), Print(BI("min", "[12.5, %s, 12.75, 12.25]")), Print(BI("max", "0.25", "%s")), Print(BI("min", "%s + 0.25", "%s")), While("%s", "{ "+Print(`"once"`)+" "+Break()+" }"), Print("!%s"), Print("%s || 7"), Print("%s && 7"), Print(`"" + %s`), Var("i", "%s") + " " + Print("[10, 20, 30][i]")} {
 			src := strings.ReplaceAll(form, "%s", lit) + "\n"
 			if c.Mine() {
 				c10Judge(c, &Case{Gen: "end-to-end", Src: src})
@@ -392,7 +392,7 @@ func c10Run(c *Ctx) {
 		}
 	}
 	for _, lit := range []string{"9223372036854775807", "9223372036854775808", "18446744073709551615", "18446744073709551616", "100000000000000000000", "\u09e7\u09ee\u09ea\u09ea\u09ec\u09ed\u09ea\u09ea\u09e6\u09ed\u09e9\u09ed\u09e6\u09ef\u09eb\u09eb\u09e7\u09ec\u09e7\u09eb", "4611686018427387904"} {
-		for _, form := range []string{Print("%s & 255"), Print("%s | 0"), Print("~%s"), Print("1 << %s"), Print("%s >> 1"), Print("%s ^ %s"), Var("v", "%s") + " " + Print("v & 1"), Print("[1, 2][%s]")} {
+		for _, form := range []string{Print("%s & 255"), Print("%s | 0"), Print("~%s"), Print("1 << %s"), Print("%s >> 1"), Print("%s ^ %s"), Var("v", "%s") + " " + Print("v & 1"), Print("[1, 2][%s]"), Print(BI("max", "1", "%s")), Print(BI("min", "%s", "1")), Print(BI("max", "[%s, 2]")), If("%s", Print(`"truthy"`)), Print("!%s"), Print("%s && 1")} {
 			src := Print(`"start"`) + "\n" + strings.ReplaceAll(form, "%s", lit) + "\n" + Print(`"AFTER"`) + "\n"
 			if c.Mine() {
 				c10Judge(c, &Case{Gen: "end-to-end", Src: src})
